@@ -18,7 +18,7 @@ func init() {
 	Register(&Scenario{Prop: "C05", Name: "diff-update-faulty", Strict: false, Quick: 12, Thorough: 10, Run: func(rc *RunCtx) *simkit.Violation { return runC05(rc, true) }})
 	// bundles with several file lists on either side (the metadata of the replaced bundle has more / fewer index files)
 	Register(&Scenario{Prop: "C05", Name: "known-path-type-switch", Strict: false, Quick: 1, Thorough: 1, Run: func(rc *RunCtx) *simkit.Violation { return runC05switch(rc) }})
-	Register(&Scenario{Prop: "C05", Name: "diff-update-multi-index", Strict: false, Quick: 1, Thorough: 2, Run: func(rc *RunCtx) *simkit.Violation { return runC05big(rc) }})
+	Register(&Scenario{Prop: "C05", Name: "diff-update-multi-index", Strict: false, Quick: 2, Thorough: 3, Run: func(rc *RunCtx) *simkit.Violation { return runC05big(rc) }})
 }
 
 var c05big, c05switch bool
@@ -71,7 +71,7 @@ func runC05(rc *RunCtx, faulty bool) *simkit.Violation {
 		// tiny files, many of them: 1..3 file lists per bundle
 		leaf = 64
 		a = Tree{}
-		na := t.Pick(900, 1100, 2050)
+		na := t.Pick(900, 1400, 2050)
 		for i := 0; i < na; i++ {
 			a[fmt.Sprintf("d%d/f%04d", i%7, i)] = []byte(fmt.Sprintf("content %d", i%50))
 		}
@@ -92,9 +92,13 @@ func runC05(rc *RunCtx, faulty bool) *simkit.Violation {
 			}
 		}
 	default: // mixed: kept, changed, removed, renamed, added
+		capB := 1 << 30
+		if c05big && len(a) > 1000 && t.Bool(1, 3) {
+			capB = 900 // the target bundle has fewer file lists than the one it replaces
+		}
 		for _, p := range a.paths() {
-			if c05big && len(b) >= map[bool]int{true: 900, false: 1 << 30}[len(a) > 1000 && t.Bool(1, 2)] {
-				break // the target bundle has fewer file lists than the one it replaces
+			if len(b) >= capB {
+				break
 			}
 			switch t.Choose(5) {
 			case 0, 1:
@@ -141,7 +145,7 @@ func runC05(rc *RunCtx, faulty bool) *simkit.Violation {
 	if pt.Err != nil {
 		return Viol(prop, "harness", "Publish", ba.ID, "%v", pt.Err)
 	}
-	if c05big && len(b) > 0 && t.Bool(1, 2) {
+	if c05big && len(b) > 0 && t.Bool(2, 3) {
 		// files are deleted from the repository (every bundle of it) after the local copy was made: the target bundle's
 		// file lists are shortened in place, no longer densely packed
 		ps := b.paths()
@@ -160,6 +164,9 @@ func runC05(rc *RunCtx, faulty bool) *simkit.Violation {
 			delete(b, p)
 		}
 		w.Probe("target-bundle-shortened-by-delete-files")
+		if len(b)+len(del) > 1000 {
+			w.Probe("target-of-2+-file-lists-shortened-in-its-first-list")
+		}
 	}
 	// model diff
 	type de struct{ typ, name string }
